@@ -8,12 +8,10 @@ namespace Foca
 /-- leaf obligations for anything that ignores membership: only sending, `addUpdate` and the two kinds
     of plain writes remain -/
 theorem Leaves.of_ignoresMembership {E : Env} {P : State → Prop} (hP : IgnoresMembership P)
-    (init : ∀ id pol cfg, P (State.init id pol cfg))
     (sendMessage : ∀ d m, Pres P (Foca.sendMessage E d m))
     (addUpdate : ∀ m, Pres P (Foca.addUpdate E m))
     (modCtl : ∀ f, CtlOnly f → Pres P (modS f))
     (modCustom : ∀ f, CustomOnly f → Pres P (modS f)) : Leaves E P where
-  init := init
   membersApply := fun u => Pres.of_onlyMembership hP (membersApply_only u)
   membersApplyExistingIf := fun u cond => Pres.of_onlyMembership hP (membersApplyExistingIf_only u cond)
   membersNext := Pres.of_onlyMembership hP membersNext_only
@@ -21,7 +19,8 @@ theorem Leaves.of_ignoresMembership {E : Env} {P : State → Prop} (hP : Ignores
   sendMessage := sendMessage
   addUpdate := addUpdate
   modCtl := modCtl
-  modCustom := modCustom
+  setHst := (customLeaves_of (E := E) modCustom).1
+  addCustom := (customLeaves_of (E := E) modCustom).2
 
 /-- at most one pending cluster update per address -/
 def UpdInv (s : State) : Prop := (bkeys s.updates).Nodup
@@ -45,7 +44,6 @@ theorem addOrReplace_keys (b : List (Entry Nat)) (addr : Nat) (d : Bytes) (maxTx
 theorem UpdInv.leaves (E : Env) : Leaves E UpdInv :=
   Leaves.of_ignoresMembership
     (by intro s s' h hs; unfold UpdInv at *; rw [h]; exact hs)
-    (by intro id pol cfg; simp [UpdInv, bkeys, State.init])
     (fun d m => ⟨fun c hc => by
       have h1 := sendMessage_upd E d m c
       have h2 := sendMessage_spec E d m c
@@ -66,6 +64,6 @@ theorem UpdInv.leaves (E : Env) : Leaves E UpdInv :=
 
 /-- In every reachable state — any history of public calls, any inputs, any RNG — the update backlog holds
     at most one pending update per address. -/
-theorem UpdInv.reachable (E : Env) {s : State} (h : Reachable E s) : UpdInv s := (UpdInv.leaves E).reachable h
+theorem UpdInv.reachable (E : Env) {s : State} (h : Reachable E s) : UpdInv s := (UpdInv.leaves E).reachable (by intro id pol cfg; simp [UpdInv, bkeys, State.init]) h
 
 end Foca
